@@ -294,7 +294,7 @@ def main(argv=None) -> int:
             jobs = []
             for prop in PROPS:
                 for v in variants.for_property(prop):
-                    if (v.diff and a.pattern in v.diff) or (v.rename and a.pattern.startswith("rename") and a.pattern[7:] in v.rename[0]):
+                    if (v.diff and a.pattern in v.diff) or (v.rename and a.pattern.startswith("rename") and "-r-" in v.vid and a.pattern[7:] in v.rename[0]) or (v.rename and a.pattern.startswith("attr") and "-a-" in v.vid and a.pattern[5:] in v.rename[0]):
                         jobs.append((prop, v.vid, "thorough"))
             with mp.get_context("fork").Pool(16) as pool:
                 res = pool.map(_variant_job, jobs)
